@@ -43,9 +43,6 @@ known('C06', 'C06|ForestOptimizationAlgorithm|ValueError|global_seeding|Cannot t
       'Forest global_seeding samples global_seeding_changes (3) distinct dimensions: crashes when the task has fewer '
       'dimensions (1-D and 2-D tasks) or global_seeding_changes is raised above the dimension',
       'ForestOptimizationAlgorithm, cont2s / far2 / mo2 / cont1')
-known('C06', 'C06|WaterCycleOptimization|ValueError|best_agent|not enough values to unpack expected got',
-      'Water Cycle: a river that was assigned no stream makes best_agent([]) fail (rounding of the stream shares); '
-      'seed dependent', 'WaterCycleOptimization, scales4 min seed 0; cont3z seed 0 with one deviated uniform')
 known('C06', 'C06|WaterCycleOptimization|ValueError|after_initialization|a cannot be empty unless no samples are ',
       'Water Cycle: the rounded stream shares can exceed the number of streams, the last choice() is from an empty set; '
       'seed dependent', 'WaterCycleOptimization, cont2s max seed 1')
@@ -126,6 +123,7 @@ FIXED = [
     "fixed: property=C20 472e8e3 Multitask(modes=<one per pair>) was indexed as if nested: modes read character-wise, ValueError",
     "fixed: property=C20 3e0cf95 Multitask.export_results nested every algorithm directory inside the previous one",
     "fixed: property=C11 99d5b51 process-mode workers were forked with the parent's generator state and replayed one stream: 20 initial agents, 8-12 distinct",
+    "fixed: property=C06 0f54b99 Water Cycle: a river that was assigned no stream made best_agent([]) raise ValueError (seed dependent, about 1 run in 500 on the test fixture task)",
     "fixed: property=C01 5131d68 Imperialist Competitive revolution swapped coordinates of the colony's own position in place: out-of-range reals and non-integer discrete coordinates were reported with a stale cost",
 ]
 
